@@ -8,7 +8,7 @@
 From Coq Require Import List ZArith Bool Arith.
 From RecordUpdate Require Import RecordUpdate.
 From FV Require Import Kernel SrcFragments Accounting TieAcc World Factory.
-From FV Require FactoryInv FactoryAcct.
+From FV Require FactoryInv FactoryAcct TieStats.
 From FV Require StoreB.
 Import ListNotations.
 Open Scope Z_scope.
@@ -102,3 +102,11 @@ Example C17_pace_witness :
   FactoryAcct.pw_check 8 2 NSink 0 0 wj = true /\
   map ntstate (wnodes wj) = [[1; 6; 0; 0; 0; 0]; [1; 3; 3; 0; 3; 0]; [0; 0; 0; 0; 0; 0]].
 Proof. vm_compute. repeat split; reflexivity. Qed.
+
+(* tie B: the amount Node.update_state charges, re-translated from nodes/node.py on every run, is what the
+   accounting function of the theorems above adds to the state that is being left *)
+Theorem C17_charge_regenerated :
+  forall a t s', (na_state a < length (na_tot a))%nat ->
+    nth (na_state a) (na_tot (nacc_step a (t, s'))) 0 = Node_state_charge (nth (na_state a) (na_tot a) 0) t (na_last a).
+Proof. exact TieStats.node_state_charge_src. Qed.
+Print Assumptions C17_charge_regenerated.
